@@ -9,6 +9,9 @@
 package main
 
 import (
+	"bytes"
+	"encoding/json"
+	"io"
 	"context"
 	"errors"
 	"fmt"
@@ -141,6 +144,46 @@ func (t *someLinks) RoundTrip(req *http.Request) (*http.Response, error) {
 	}
 	return resp, err
 }
+
+// sparseJSON rewrites listing answers the way a server that marshals with omitempty writes them: a list
+// member that is empty or null is left out of the object altogether. The listing is the same listing.
+type sparseJSON struct {
+	inner http.RoundTripper
+	n     *atomic.Int64
+}
+
+func (t *sparseJSON) RoundTrip(req *http.Request) (*http.Response, error) {
+	resp, err := t.inner.RoundTrip(req)
+	if err != nil || resp.StatusCode != 200 || req.Method != "GET" {
+		return resp, err
+	}
+	data, rerr := io.ReadAll(resp.Body)
+	resp.Body.Close()
+	if rerr == nil {
+		var obj map[string]json.RawMessage
+		if json.Unmarshal(data, &obj) == nil {
+			changed := false
+			for _, k := range []string{"tags", "repositories"} {
+				if raw, ok := obj[k]; ok && (string(raw) == "null" || string(raw) == "[]") {
+					delete(obj, k)
+					changed = true
+				}
+			}
+			if changed {
+				if d2, err := json.Marshal(obj); err == nil {
+					data = d2
+					t.n.Add(1)
+				}
+			}
+		}
+	}
+	resp.Body = io.NopCloser(bytes.NewReader(data))
+	resp.ContentLength = int64(len(data))
+	resp.Header.Set("Content-Length", fmt.Sprint(len(data)))
+	return resp, nil
+}
+
+var sparsePages atomic.Int64
 
 func genItems(rng *rand.Rand, kind string, n int) []string {
 	set := map[string]bool{}
@@ -435,6 +478,11 @@ func runCase(run *evid.Run, idx int) {
 				pat := []uint64{^uint64(1), 0xAAAAAAAAAAAAAAAA, ^uint64(7), 0x5555555555555554}[(idx/5)%4]
 				o.Wrap = func(rt http.RoundTripper) http.RoundTripper { return &someLinks{inner: rt, pattern: pat} }
 				run.Count("listings_with_link_on_some_pages_only", 1)
+			}
+			if o.Wrap == nil && idx%3 == 1 {
+				// a peer that leaves empty list members out of its answers
+				o.Wrap = func(rt http.RoundTripper) http.RoundTripper { return &sparseJSON{inner: rt, n: &sparsePages} }
+				run.Count("listings_from_peers_that_omit_empty_members", 1)
 			}
 			firstHTTP = false
 			hi++
@@ -820,5 +868,6 @@ func main() {
 	run.FloorCounter("long_listings", 3)
 	run.FloorCounter("early_stops", 100)
 	run.FloorCounter("faults_surfaced_as_error", 50)
+	run.Count("pages_with_empty_member_omitted", int(sparsePages.Load()))
 	run.Finish()
 }
